@@ -11,7 +11,8 @@ CONSTANTS
   FixVoidSrc = TRUE
   ArmLate = {}
   RegCtxs = {"plain", "guard", "handler"}
-  ResCtxs = {"plain", "guard", "handler", "scope", "local"}
+  ResCtxs = {"plain", "guard", "handler", "scope", "local", "assign"}
+  FactoryFail = {"fthrow"}
   SkipUnwinding = {}
   ArgsByRef = FALSE
 INVARIANTS TypeOK CallbackOnce RightOutcome HelperFreedOnce ConvertedValueOrException PublishedResumable ArgsAsPassed NoStuckState
